@@ -112,6 +112,12 @@ pub fn run<E: Entry>(ctx: &mut Ctx) {
         ctx.end_history();
         return;
     };
+    // in half of the histories the region that read items are taken from holds other items too
+    // (other offsets, wider rows, more columns than the receiver ever saw)
+    if (h / 6) % 2 == 1 {
+        let other = gen_pool::<E>(ctx, Dom::new(Kind::Hostile), 5);
+        live.prefill_aux(&other);
+    }
     let nforms = Live::<E>::nforms();
     let names = E::form_names();
     let mut pushes = 0;
